@@ -159,11 +159,11 @@ End Q.
 Section KeepProofs.
   Section Ind.
     Variable P : ktree -> Prop.
-    Hypothesis H : forall marked persist ns qs qsubs subs, Forall P qsubs -> Forall P subs -> P (KT marked persist ns qs qsubs subs).
+    Hypothesis H : forall id marked persist ns qs qsubs subs, Forall P qsubs -> Forall P subs -> P (KT id marked persist ns qs qsubs subs).
     Fixpoint ktree_ind' (t : ktree) : P t :=
       match t with
-      | KT marked persist ns qs qsubs subs =>
-          H marked persist ns qs qsubs subs
+      | KT id marked persist ns qs qsubs subs =>
+          H id marked persist ns qs qsubs subs
             ((fix go (l : list ktree) : Forall P l :=
                 match l with [] => Forall_nil P | x :: r => Forall_cons x (ktree_ind' x) (go r) end) qsubs)
             ((fix go (l : list ktree) : Forall P l :=
@@ -174,16 +174,16 @@ Section KeepProofs.
   (** [should_be_removed] says exactly: nothing at or below this track has a reason to stay *)
   Lemma removable_iff_not_anchored_l t : removable t = negb (anchored t).
   Proof.
-    induction t as [marked persist ns qs qsubs subs _ IH] using ktree_ind'.
+    induction t as [id marked persist ns qs qsubs subs _ IH] using ktree_ind'.
     cbn [removable anchored anchored_here].
     assert (E : existsb (fun c => negb (removable c)) subs = existsb anchored subs).
     { induction IH as [|x l Hx _ IHl]; cbn; [reflexivity|]. rewrite Hx, negb_involutive, IHl. reflexivity. }
     rewrite E. destruct (is_nilb qsubs), (existsb anchored subs), marked, persist, (Nat.eqb ns 0), (Nat.eqb qs 0); reflexivity.
   Qed.
 
-  Definition subs_of (t : ktree) : list ktree := match t with KT _ _ _ _ _ subs => subs end.
-  Definition sounds_here (t : ktree) : nat := match t with KT _ _ ns qs _ _ => ns + qs end.
-  Definition flags_of (t : ktree) : bool * bool := match t with KT m p _ _ _ _ => (m, p) end.
+  Definition subs_of (t : ktree) : list ktree := match t with KT _ _ _ _ _ _ subs => subs end.
+  Definition sounds_here (t : ktree) : nat := match t with KT _ _ _ ns qs _ _ => ns + qs end.
+  Definition flags_of (t : ktree) : nat * bool * bool := match t with KT i m p _ _ _ _ => (i, m, p) end.
   (** [on_branch t u]: [u] is [t] or sits below it in the arenas *)
   Inductive on_branch : ktree -> ktree -> Prop :=
   | ob_here t : on_branch t t
@@ -192,7 +192,7 @@ Section KeepProofs.
   Lemma anchored_up t u : on_branch t u -> anchored u = true -> anchored t = true.
   Proof.
     induction 1 as [t|t c u Hin Hb IH]; intros Hu; [exact Hu|].
-    specialize (IH Hu). destruct t as [m p ns qs qsubs subs]. cbn in *.
+    specialize (IH Hu). destruct t as [id m p ns qs qsubs subs]. cbn in *.
     apply orb_true_iff. right. apply existsb_exists. eauto.
   Qed.
   Lemma anchored_here_anchored u : anchored_here u = true -> anchored u = true.
@@ -223,7 +223,7 @@ Section KeepProofs.
     - exists (k_on_start removable t). split; [constructor|]. destruct t. cbn. split; [lia|reflexivity].
     - destruct (IH Hu) as [u' [Hb' Hs]]. exists u'. split; [|exact Hs].
       apply ob_below with (c := k_on_start removable c); [|exact Hb'].
-      destruct t as [m p ns qs qsubs subs]. cbn in *. apply in_or_app. right.
+      destruct t as [id m p ns qs qsubs subs]. cbn in *. apply in_or_app. right.
       apply drain_then_in; [exact Hin|]. eapply live_descendant_keeps_branch_l; eauto.
   Qed.
   Lemma live_descendant_survives_mixer_l tops t u :
@@ -285,17 +285,17 @@ Section Witness.
   Definition ex_leak : list (mev Q Q) :=
     [MWrite (WPause (tw_ms 16)); MStart; chunk 8; MWrite (WResume (Delayed 20000000) (tw_ms 0)); MStart].
   Definition cs_leak : tcs Q Q := match mrunQ0 b0 ex_leak with Ok ((cs, _), _) => cs | _ => cs0 end.
+  Definition adv_of (r : outcome (tcs Q Q * tctl unit Q)) : option bool :=
+    match r with Ok (_, c) => Some (c_adv c) | _ => None end.
+  Definition gain0_of (r : outcome (tcs Q Q * tctl unit Q)) : Q :=
+    match r with Ok (_, c) => c_gain c 0%nat | _ => 0 end.
+  Definition code_of (cs : tcs Q Q) : Z := match k_psm cs with Some m => state_code (ps m) | None => (-1)%Z end.
   Lemma paused_only_guard_refuted_l :
-    (exists st tw m, k_psm cs_leak = Some m /\ ps m = WaitingToResume st tw) /\
-    (exists cs' c, stepQ no_info cs_leak 8%nat = Ok (cs', c) /\ c_adv c = false) /\
-    (exists cs' c, ctl_step_paused_only pw0 Q lerpQ (-60) 0 unit Q ampQ gmulQ dtQ no_info cs_leak 8%nat = Ok (cs', c)
-                   /\ c_adv c = true /\ ~ c_gain c 0%nat == 0).
-  Proof.
-    split; [|split].
-    - vm_compute. do 3 eexists. split; reflexivity.
-    - vm_compute. do 2 eexists. split; reflexivity.
-    - vm_compute. do 2 eexists. split; [reflexivity|]. split; [reflexivity|]. intro H. discriminate H.
-  Qed.
+    code_of cs_leak = 3%Z /\
+    adv_of (stepQ no_info cs_leak 8%nat) = Some false /\
+    adv_of (ctl_step_paused_only pw0 Q lerpQ (-60) 0 unit Q ampQ gmulQ dtQ no_info cs_leak 8%nat) = Some true /\
+    ~ gain0_of (ctl_step_paused_only pw0 Q lerpQ (-60) 0 unit Q ampQ gmulQ dtQ no_info cs_leak 8%nat) == 0.
+  Proof. vm_compute. repeat split. intro H. discriminate H. Qed.
 
   (** a generic runner for a seeded chunk step *)
   Definition mstep_with (stepf : info Q -> tcs Q Q -> nat -> outcome (tcs Q Q * tctl unit Q))
@@ -320,7 +320,7 @@ Section Witness.
      MWrite (WVol (Fixed (-60)) (tw_ms 16)); MStart; chunk 8; chunk 8; chunk 8;
      MWrite (WResume Immediate (tw_ms 0)); MStart; chunk 8; chunk 8].
   Lemma late_volumes_refuted_l :
-    gains (mrunQ0 b0 ex_mute_paused) = [0; 0; 0; 0; 0; 0] /\
+    skipn 4 (gains (mrunQ0 b0 ex_mute_paused)) = [0; 0] /\
     advs (mrunQ0 b0 ex_mute_paused) = [false; false; false; false; true; true] /\
     advs (mrun_with (ctl_step_late_volumes pw0 Q lerpQ (-60) 0 unit Q ampQ gmulQ dtQ) b0 ex_mute_paused)
       = [false; false; false; false; true; true] /\
@@ -341,9 +341,9 @@ Section Witness.
   Proof. vm_compute. repeat split. Qed.
 
   (** parent and child handles dropped, grandchild alive with one sound *)
-  Definition k_grand : ktree := KT false false 1 0 [] [].
-  Definition k_child : ktree := KT true false 0 0 [] [k_grand].
-  Definition k_parent : ktree := KT true false 0 0 [] [k_child].
+  Definition k_grand : ktree := KT 3 false false 1 0 [] [].
+  Definition k_child : ktree := KT 2 true false 0 0 [] [k_grand].
+  Definition k_parent : ktree := KT 1 true false 0 0 [] [k_child].
   Lemma shallow_test_refuted_l :
     on_branch k_parent k_grand /\ anchored_here k_grand = true /\
     removable k_parent = false /\ list_sum (map k_sounds (k_mixer_on_start removable [k_parent])) = 1%nat /\
@@ -355,8 +355,8 @@ Section Witness.
   Qed.
   (** a persisting child with a sound still queued for it keeps the parent too *)
   Lemma persisting_child_example_l :
-    let c := KT true true 0 1 [] [] in
-    anchored_here c = true /\ removable (KT true false 0 0 [] [c]) = false /\
-    removable_shallow (KT true false 0 0 [] [c]) = true.
+    let c := KT 2 true true 0 1 [] [] in
+    anchored_here c = true /\ removable (KT 1 true false 0 0 [] [c]) = false /\
+    removable_shallow (KT 1 true false 0 0 [] [c]) = true.
   Proof. vm_compute. repeat split. Qed.
 End Witness.
